@@ -54,6 +54,9 @@ EXTENDS Naturals, Sequences, FiniteSets, TLC
 CONSTANTS MaxU8, MaxLabel, MaxName, MaxTxtChunk, MaxU16, PtrLimit,
           ReqOverhead, RespOverhead, MaxUDP,
           FrameMode, PtrMode, NonceMode,
+          DecoderMode,    \* "pure": Reveal is a function of (encoding, key) - it may be applied to one buffer again and again, with
+                          \*         any keys, in any order (the station tries every key it has on the same bytes);
+                          \* "inplace": a Reveal consumes the buffer it was given (a broken instance: must violate RoundTrip)
           ReqLens, RespLens, LabelLens, TxtLens, RRLens, Counts, Chains,   \* sets of lengths explored per codec
           Domains,        \* base domains: sequences of label lengths, e.g. <<>>, <<1>>, <<1, 7, 3>>
           NameShapes,     \* names for NameWire: sequences of label lengths (0 and MaxLabel+1 included on purpose)
@@ -189,15 +192,21 @@ Count(n) == obs' = [a |-> "Count", n |-> n, accept |-> n <= MaxU16, representabl
 MsgNames(k) ==
   obs' = [a |-> "MsgNames", k |-> k, accept |-> TRUE, representable |-> TRUE, max_depth |-> Depths(k)[k],
           rt |-> ChainReadable(k)]
+\* the buffer holding an encoding after a Reveal was applied to it
+Spent(c) == [c EXCEPT !.body = <<>>, !.pk = <<"spent">>]
+After(c) == IF DecoderMode = "pure" \/ c.kind \notin {"gcm"} THEN c ELSE Spent(c)
 ObfTwice(kind, n, sk, other, r1, r2) ==
   LET t == Bytes(n)
       rr2 == IF NonceMode = "static" THEN r1 ELSE r2
       c1 == Obf(kind, t, PK(sk), r1) c2 == Obf(kind, t, PK(sk), rr2)
-      w == Reveal(c1, other) IN
+      w == Reveal(c1, other)
+      \* one buffer, three attempts in a row: another station's key, the right key, the right key again
+      b1 == After(c1) b2 == After(b1) IN
   /\ r1 # r2
   /\ obs' = [a |-> "Obf", kind |-> kind, n |-> n, key |-> sk, accept |-> TRUE, representable |-> TRUE,
              enc_len |-> EncLen(kind, n),
-             rt |-> Reveal(c1, sk) = Ok(t) /\ Reveal(c2, sk) = Ok(t),
+             rt |-> Reveal(c1, sk) = Ok(t) /\ Reveal(c2, sk) = Ok(t) /\ Reveal(b1, sk) = Ok(t) /\ Reveal(b2, sk) = Ok(t),
+             buffer_intact |-> b2 = c1,
              randomised |-> kind \in Randomised, distinct |-> c1 # c2,
              wrongkey |-> IF other = sk THEN "same key" ELSE IF w.err THEN "error"
                           ELSE IF w.v = t THEN "tag (keyless obfuscator)" ELSE "other bytes"]
